@@ -99,7 +99,12 @@ def eng_totality(f, sub, prop):
     totality.run_totality(f, sub, prop)
 
 
-ENGINES = {"tables": eng_tables, "uxcomp": eng_uxcomp, "ctflow": eng_ctflow, "totality": eng_totality}
+def eng_gates(f, sub, prop):
+    from . import gates
+    gates.run_gates(f, sub, prop)
+
+
+ENGINES = {"gates": eng_gates, "tables": eng_tables, "uxcomp": eng_uxcomp, "ctflow": eng_ctflow, "totality": eng_totality}
 
 
 # ---- properties --------------------------------------------------------------
@@ -191,7 +196,56 @@ def check_totality(prop):
     return chk
 
 
-CHECKS = {"C02": check_C02, "C04": check_C04, "C13": check_C13,
+GATE_TEXT = {
+    "C05": "Structural clauses of C05: every field/scalar encoder produces its bytes from the type's normaliser output "
+           "(set_normalized / set_montyred reaches the result); strict decoders take the failure path on a wrong length and the "
+           "Option wrappers yield Some only under the strict decoder's status. NOT decided: that the borrow chain compares "
+           "against the right modulus, the carry arithmetic of the normaliser, round-trip identity.",
+    "C06": "Decode-gate clause of C06: for each of the nine group decoders the returned status depends on every rejection "
+           "conjunct of the format's decoding rule (length, canonical coordinate via the strict field decoder, square-root / "
+           "on-curve tests, sign / non-negativity tests, excluded values), counted per enclosing decoder; Point::decode and "
+           "PublicKey::decode return Some only under that status. NOT decided: injectivity, representative-independence, maps.",
+    "C07": "Gate clause of C07: the boolean returned by Ed25519/Ed448 verify_{raw,ctx,ph} depends on: exact signature length, "
+           "strict decoding of R from its byte range, strict (non-reducing) decoding of S from its byte range, the Ed448 114th "
+           "byte compared with zero unmasked, the decoder's own conjuncts, and the verification equation; signature bytes never "
+           "reach a reducing decoder. NOT decided: that the equation/hash prefix computed is the right one, signing determinism.",
+    "C08": "Gate clause of C08: ECDSA verify_hash depends on even length, zero surplus bytes in BOTH halves, strict decoding and "
+           "non-zero test of r and of s, R not at infinity, final comparison; PrivateKey/PublicKey::decode range gates. NOT "
+           "decided: nonce derivation, the arithmetic of the equation.",
+    "C09": "Gate clause of C09: verify depends on len == 48 (equality test), canonical s from sig[16..48], challenge comparison "
+           "with sig[0..16]; ECDH status depends on peer decoding and the neutral test; key decoders' gates. NOT decided: "
+           "challenge computation, ECDH key agreement arithmetic.",
+    "C13": "Two clauses of C13: the UX_COMP / B227 tables (exhaustive) and the soundness gates of truncated verification "
+           "(length, strict r/R decoding, non-zero r, Some(..) only under the point-equality check of the reconstructed "
+           "signature; r never reduced). NOT decided: completeness of the search.",
+    "C15": "Structural clauses of C15: reachable-panic discipline of every public FROST function (totality rules, including the "
+           "caller-establishes rule for the ordering assert) and the rejection gates of all decoders, decode_list, sign, share "
+           "verification and signature assembly. NOT decided: Lagrange interpolation algebra, wire layout equality (planned).",
+    "C16": "Verification-gate clause of C16: LMS verify depends on the exact signature size, leaf index range, both type codes "
+           "and the final root comparison, for all four parameter sets. The one-time-key state machine of sign() is checked "
+           "by the lmsstate rule (dominance of the index advance).",
+}
+
+
+def check_gates(prop, engines, level="other"):
+    def chk(tier):
+        run = Run(prop, tier, level=level)
+        cfgs = configs_for(tier)
+        stats = run_engines(run, engines, cfgs, prop)
+        n = run.obligations
+        return run.finish(
+            explanation=GATE_TEXT[prop],
+            evaluations=n, distinct=n,
+            rule="one obligation per (configuration, function, required check fact class): the fact must reach the function's "
+                 "result through data or control dependence (taint analysis with implicit flows over MIR, interprocedural)",
+            extra_cov=dict(configs=cfgs, per_config=stats), exhaustive=(True if "uxcomp" in engines else None))
+    return chk
+
+
+CHECKS = {"C05": check_gates("C05", ["gates"]), "C06": check_gates("C06", ["gates"]), "C07": check_gates("C07", ["gates"]),
+          "C08": check_gates("C08", ["gates"]), "C09": check_gates("C09", ["gates"]),
+          "C15": check_gates("C15", ["gates", "totality"]), "C16": check_gates("C16", ["gates"]),
+          "C02": check_C02, "C04": check_C04, "C13": check_gates("C13", ["uxcomp", "gates"], level="exploration"),
           "C19": check_totality("C19"), "C10": check_totality("C10"), "C11": check_totality("C11")}
 
 
